@@ -4,7 +4,12 @@
    A reader works on a src (Model/Codec.v): the list of chunks the successive Read calls of the
    underlying io.Reader deliver.  `no_empty s` = every Read delivers at least one byte; apart from
    that the split of the bytes into chunks is ARBITRARY (universally quantified) in every theorem
-   below.  `concat s' = rest` in a conclusion says: exactly the written bytes were consumed. *)
+   below.  `concat s' = rest` in a conclusion says: exactly the written bytes were consumed.
+
+   A packet carries the read cursor of its payload Chunk (p_rpos; wf: 0 <= p_rpos <= |payload|).
+   `rewind p` = p with the cursor at 0 (what a reader of the wire form hands out; = p for a fresh
+   packet), `unread p` = the unread part buf[rpos:] as a fresh buffer (what a reader of the nested
+   form hands out, since Chunk.MarshalStream writes the unread part; = p for a fresh packet). *)
 From XMT Require Import Base.Prelude Model.Codec Model.Packet Proofs.Codec Proofs.Packet.
 
 (* ---- Marshal ------------------------------------------------------------------------- *)
@@ -20,7 +25,7 @@ Theorem C01_marshal_length : forall p b, wf p = true -> marshal p = Ok b ->
 Proof. exact marshal_length. Qed.
 Print Assumptions C01_marshal_length.
 
-Theorem C01_size_ge_marshal : forall p b, wf p = true -> marshal p = Ok b -> p_pay p <> [] -> len b <= size p.
+Theorem C01_size_ge_marshal : forall p b, wf p = true -> marshal p = Ok b -> p_rpos p < len (p_pay p) -> len b <= size p.
 Proof. exact size_ge_marshal. Qed.
 Print Assumptions C01_size_ge_marshal.
 
@@ -30,22 +35,56 @@ Theorem C01_size_empty_ignores_tags : forall p b, wf p = true -> marshal p = Ok 
 Proof. exact size_empty_ignores_tags. Qed.
 Print Assumptions C01_size_empty_ignores_tags.
 
+(* recorded: Size() of a packet whose payload was consumed to the end is the bare header size,
+   although Marshal writes the whole buffer *)
+Theorem C01_size_consumed_is_header : forall p, p_rpos p = len (p_pay p) -> size p = 46.
+Proof. exact size_consumed_is_header. Qed.
+Print Assumptions C01_size_consumed_is_header.
+
+(* ---- the read cursor: Marshal rewinds and writes the whole buffer whatever the cursor was ------ *)
+Theorem C01_marshal_cursor_irrelevant : forall p k, marshal (set_rpos k p) = marshal p.
+Proof. exact marshal_cursor_irrelevant. Qed.
+Print Assumptions C01_marshal_cursor_irrelevant.
+
+Theorem C01_after_marshal_cursor : forall p,
+  p_rpos (after_marshal p) = len (p_pay p) /\ p_pay (after_marshal p) = p_pay p.
+Proof. exact after_marshal_cursor. Qed.
+Print Assumptions C01_after_marshal_cursor.
+
+Theorem C01_unmarshal_marshal_any_cursor : forall p k b s rest,
+  wf p = true -> 0 <= k <= len (p_pay p) -> marshal (set_rpos k p) = Ok b ->
+  no_empty s -> concat s = b ++ rest ->
+  exists s', unmarshal s = Ok (rewind p, s') /\ concat s' = rest /\ no_empty s'.
+Proof. exact unmarshal_marshal_any_cursor. Qed.
+Print Assumptions C01_unmarshal_marshal_any_cursor.
+
+(* the nested form writes the unread part only (and does not move the cursor) *)
+Theorem C01_marshal_stream_cursor : forall p k,
+  marshal_stream (set_rpos k p) =
+  marshal_stream (mkP (p_id p) (p_job p) (p_flags p) (p_tags p) (p_dev p) (drop k (p_pay p)) 0).
+Proof. exact marshal_stream_cursor. Qed.
+Print Assumptions C01_marshal_stream_cursor.
+
+Theorem C01_fresh_is_fixed_point : forall p, p_rpos p = 0 -> rewind p = p /\ unread p = p.
+Proof. exact fresh_is_fixed_point. Qed.
+Print Assumptions C01_fresh_is_fixed_point.
+
 (* ---- the wire form is lossless and self-delimiting -------------------------------------- *)
 Theorem C01_unmarshal_marshal : forall p b s rest,
   wf p = true -> marshal p = Ok b -> no_empty s -> concat s = b ++ rest ->
-  exists s', unmarshal s = Ok (p, s') /\ concat s' = rest /\ no_empty s'.
+  exists s', unmarshal s = Ok (rewind p, s') /\ concat s' = rest /\ no_empty s'.
 Proof. exact unmarshal_marshal. Qed.
 Print Assumptions C01_unmarshal_marshal.
 
 Theorem C01_packets_concat : forall ps bs s,
   Forall (fun p => wf p = true) ps -> Forall2 (fun p b => marshal p = Ok b) ps bs ->
   no_empty s -> concat s = concat bs ->
-  unmarshal_many (S (length (concat s))) s = Ok ps.
+  unmarshal_many (S (length (concat s))) s = Ok (map rewind ps).
 Proof. exact packets_concat. Qed.
 Print Assumptions C01_packets_concat.
 
 Theorem C01_wire_prefix_free : forall p q r1 r2, wf p = true -> wf q = true ->
-  wire p ++ r1 = wire q ++ r2 -> p = q /\ r1 = r2.
+  wire p ++ r1 = wire q ++ r2 -> rewind p = rewind q /\ r1 = r2.
 Proof. exact wire_prefix_free. Qed.
 Print Assumptions C01_wire_prefix_free.
 
@@ -59,14 +98,14 @@ Print Assumptions C01_unmarshal_truncated.
 (* ---- the nested stream form ------------------------------------------------------------------ *)
 (* from a Chunk (the container of a batched packet) *)
 Theorem C01_unmarshal_stream_marshal_stream : forall p rest,
-  wf_stream p = true -> unmarshal_stream (marshal_stream p ++ rest) = Ok (p, rest).
+  wf_stream p = true -> unmarshal_stream (marshal_stream p ++ rest) = Ok (unread p, rest).
 Proof. exact unmarshal_stream_marshal_stream. Qed.
 Print Assumptions C01_unmarshal_stream_marshal_stream.
 
 (* from data.NewReader over an io.Reader delivering short reads *)
 Theorem C01_unmarshal_srd_marshal_stream : forall p s rest,
   wf_stream p = true -> no_empty s -> concat s = marshal_stream p ++ rest ->
-  exists s', unmarshal_srd s = Ok (p, s') /\ concat s' = rest /\ no_empty s'.
+  exists s', unmarshal_srd s = Ok (unread p, s') /\ concat s' = rest /\ no_empty s'.
 Proof. exact unmarshal_srd_marshal_stream. Qed.
 Print Assumptions C01_unmarshal_srd_marshal_stream.
 
@@ -82,12 +121,12 @@ Proof. exact stream_readers_agree. Qed.
 Print Assumptions C01_stream_readers_agree.
 
 Theorem C01_stream_packets_concat : forall ps, Forall (fun p => wf_stream p = true) ps ->
-  let b := concat (map marshal_stream ps) in unmarshal_stream_many (S (length b)) b = Ok ps.
+  let b := concat (map marshal_stream ps) in unmarshal_stream_many (S (length b)) b = Ok (map unread ps).
 Proof. exact stream_packets_concat_check. Qed.
 Print Assumptions C01_stream_packets_concat.
 
 Theorem C01_marshal_stream_prefix_free : forall p q r1 r2, wf_stream p = true -> wf_stream q = true ->
-  marshal_stream p ++ r1 = marshal_stream q ++ r2 -> p = q /\ r1 = r2.
+  marshal_stream p ++ r1 = marshal_stream q ++ r2 -> unread p = unread q /\ r1 = r2.
 Proof. exact marshal_stream_prefix_free. Qed.
 Print Assumptions C01_marshal_stream_prefix_free.
 
@@ -172,14 +211,20 @@ Print Assumptions C01_clear_after_setter.
 (* ---- non-vacuity: a well-formed fragment packet with tags and payload, read back through
    1-byte reads with trailing bytes; two packets on one stream; the flag word of the example ------ *)
 Definition ex_dev : list Z := [26;189;239;82;127;67;30;72;240;210;225;224;111;207;52;153;165;44;167;15;95;172;184;6;174;40;170;124;115;176;162;201].
-Definition ex_p : packet := mkP 240 4660 844429225558017 [3735928559; 1] ex_dev [104;101;108;108;111].
-Definition ex_q : packet := mkP 7 0 0 [] ex_dev (pay 3 300).
+Definition ex_p : packet := mkP 240 4660 844429225558017 [3735928559; 1] ex_dev [104;101;108;108;111] 0.
+Definition ex_q : packet := mkP 7 0 0 [] ex_dev (pay 3 300) 0.
+(* ex_p after its payload was consumed to the end, and after three bytes were read *)
+Definition ex_p5 : packet := set_rpos 5 ex_p.
+Definition ex_p3 : packet := set_rpos 3 ex_p.
 Example C01_nonvacuous :
   wf ex_p = true /\ wf_stream ex_p = true /\ wf ex_q = true /\
   len (wire ex_p) = 46 + 1 + 8 + 5 /\ len (wire ex_q) = 46 + 2 + 300 /\
   (do '(p, r) <- unmarshal (split (SEvery 1) (wire ex_p ++ [9;9;9])); Ok (p, concat r)) = Ok (ex_p, [9;9;9]) /\
   unmarshal_many 9 (split (SEvery 7) (wire ex_p ++ wire ex_q)) = Ok [ex_p; ex_q] /\
   (do '(p, r) <- unmarshal_srd (split (SEvery 3) (marshal_stream ex_p ++ [9])); Ok (p, concat r)) = Ok (ex_p, [9]) /\
+  wf ex_p5 = true /\ marshal ex_p5 = Ok (wire ex_p) /\ size ex_p5 = 46 /\ size ex_p = 46 + 5 + 8 + 1 /\
+  unmarshal_many 9 (split (SEvery 5) (wire ex_p5 ++ wire ex_q)) = Ok [ex_p; ex_q] /\
+  (do '(p, r) <- unmarshal_stream (marshal_stream ex_p3 ++ marshal_stream ex_q); Ok (p_pay p, len r)) = Ok ([108;111], len (marshal_stream ex_q)) /\
   flag_len (p_flags ex_p) = 3 /\ flag_position (p_flags ex_p) = 1 /\ flag_group (p_flags ex_p) = 7 /\
   flag_set_position (p_flags ex_p) 2 = 844433520525313 /\ flag_clear (p_flags ex_p) = 0.
 Proof. vm_compute. repeat split; reflexivity. Qed.
